@@ -85,9 +85,11 @@ func c13Pool(kind string, variant string) []ap.Item {
 		ap.IRI("https://example.com/items/0"),
 		&ap.Object{ID: "https://example.com/items/1", Type: ap.NoteType, Name: ap.DefaultNaturalLanguageValue("one")},
 		&ap.Actor{ID: "https://example.com/items/2", Type: ap.PersonType, PreferredUsername: ap.DefaultNaturalLanguageValue("two")},
-		&ap.Activity{ID: "https://example.com/items/3", Type: ap.CreateType, Actor: ap.IRI("https://example.com/items/2"), Object: ap.IRI("https://example.com/items/1")},
+		&ap.Activity{ID: "https://example.com/items/3", Type: ap.CreateType, Actor: ap.IRI("https://example.com/items/2"), Object: ap.IRIs{"https://example.com/items/1", "https://example.com/items/9"}},
 		ap.IRI("https://other.example.org/items/4?x=1"),
-		&ap.Object{ID: "https://example.com/items/5", Type: ap.ArticleType, Summary: ap.DefaultNaturalLanguageValue("five")},
+		// a member whose own properties hold lists in the IRI-list form: membership goes through full equality of such members
+		&ap.Object{ID: "https://example.com/items/5", Type: ap.ArticleType, Summary: ap.DefaultNaturalLanguageValue("five"),
+			AttributedTo: ap.IRIs{"https://example.com/authors/a", "https://example.com/authors/b"}, Tag: ap.ItemCollection{ap.IRIs{"https://example.com/t/1"}}},
 	}
 }
 
